@@ -179,7 +179,13 @@ class C06(Check):
                                 break
                     else:
                         dtn, _, b01 = bits.partition(":")
-                        arr = numpy.array([int(x) for x in b01], dtype={"int64": int, "uint8": numpy.uint8, "bool": bool}[dtn])
+                        strided = dtn.startswith("s")
+                        dtn = dtn[1:] if strided else dtn
+                        arr = numpy.array([int(x) for x in b01], dtype=numpy.dtype(dtn))
+                        if strided:
+                            tbl = numpy.zeros((len(b01), 2), dtype=numpy.dtype(dtn))
+                            tbl[:, 0] = arr
+                            arr = tbl[:, 0]
                         if op == "generate-np":
                             want = [int(x) for x in cls.generate(bitarray(b01)).tolist()]
                             try:
@@ -191,7 +197,11 @@ class C06(Check):
                         else:
                             wi2 = int(b01, 2)
                             near = [x for x in cs if bin(x ^ wi2).count("1") <= 1]
-                            got = [int(x) & 1 for x in cls.correct_numpy_array(arr).tolist()]
+                            try:
+                                got = [int(x) & 1 for x in cls.correct_numpy_array(arr).tolist()]
+                            except Exception as e:
+                                got = type(e).__name__
+                                fail("C06.container", c, f"call #{i}: {c}.correct_numpy_array({dtn}{' strided' if strided else ''} {b01}) raised {got}", None)
                             if near and got != [int(x) for x in format(near[0], f"0{n}b")]:
                                 fail("C06.single-error-repair", c, f"call #{i}: {c}.correct_numpy_array({dtn} {b01}) = {got}", None)
                     res["evals"] += 1
@@ -269,8 +279,12 @@ class C06(Check):
 
             held = []  # (message, array returned by generate for an ndarray message): must stay what it was, whatever is encoded later
             for m in range(a, b):
-                dt = [int, numpy.uint8, bool, numpy.int64][m % 4]
+                dt = [int, numpy.uint8, bool, numpy.uint64, numpy.int8, numpy.uint16, numpy.int32, numpy.uint32][m % 8]
                 marr = numpy.array([int(x) for x in int2ba(m, k).tolist()], dtype=dt)
+                if m % 3 == 0:  # the message as a strided view: a column of a table, the way the BPTC code hands rows/columns around
+                    tbl = numpy.zeros((k, 3), dtype=dt)
+                    tbl[:, 1] = marr
+                    marr = tbl[:, 1]
                 try:
                     garr = cls.generate(marr)
                     gl = [int(x) & 1 for x in garr.tolist()]
@@ -281,16 +295,25 @@ class C06(Check):
                              [[c, "generate-np", numpy.dtype(dt).name + ":" + int2ba(m, k).to01()]])
                     held.append((m, garr, want))
                 except Exception as e:
-                    if dt is int:
-                        fail("C06.container", c, f"{c}.generate(int ndarray) raised {type(e).__name__}: {e}", [[c, "generate-np", "int64:" + int2ba(m, k).to01()]])
+                    fail("C06.container", c, f"{c}.generate(ndarray dtype={numpy.dtype(dt).name}{' strided' if m % 3 == 0 else ''}) raised {type(e).__name__}: {e}",
+                         [[c, "generate-np", ("s" if m % 3 == 0 else "") + numpy.dtype(dt).name + ":" + int2ba(m, k).to01()]])
                 if ham:
                     cwl = [int(x) for x in cls.generate(int2ba(m, k)).tolist()]
                     for pos in (m % n, (m * 7 + 3) % n):
                         rxl = list(cwl)
                         rxl[pos] ^= 1
-                        for dt2 in (int, numpy.uint8, bool):
+                        for dt2 in (int, numpy.uint8, bool, numpy.uint64):
                             arr = numpy.array(rxl, dtype=dt2)
-                            rep = cls.correct_numpy_array(arr)
+                            if (m + pos) % 2:  # strided view (column of a table of that dtype)
+                                tbl = numpy.zeros((n, 2), dtype=dt2)
+                                tbl[:, 0] = arr
+                                arr = tbl[:, 0]
+                            try:
+                                rep = cls.correct_numpy_array(arr)
+                            except Exception as e:
+                                fail("C06.container", c, f"{c}.correct_numpy_array raised {type(e).__name__}: {e} for a {'strided ' if (m + pos) % 2 else ''}{numpy.dtype(dt2).name} word",
+                                     [[c, "correct-np", ("s" if (m + pos) % 2 else "") + numpy.dtype(dt2).name + ":" + "".join(map(str, rxl))]])
+                                continue
                             res["evals"] += 1
                             if [int(x) & 1 for x in rep.tolist()] != cwl:
                                 fail("C06.single-error-repair", c, f"{c}.correct_numpy_array(dtype={numpy.dtype(dt2).name}) of {cwl} with bit {pos} inverted returned "
